@@ -84,6 +84,9 @@ pub fn install_panic_hook() {
             .unwrap_or_default();
         let thread = format!("{:?}", std::thread::current().id());
         PANIC_COUNT.fetch_add(1, Ordering::SeqCst);
+        if std::env::var("VH_PANIC_PRINT").is_ok() {
+            eprintln!("panic at {}: {}", location, message);
+        }
         if let Some(p) = PANICS.get() {
             if let Ok(mut g) = p.lock() {
                 if g.len() < 10_000 {
